@@ -217,6 +217,10 @@ def judgeTabWith (which : List String) (c : Case) (o : ObsLine) : Verdict :=
       | _, _ => false
     if fileBad then .violation "the exported file differs from the returned table(s)"
       ((o.obs.getObjValAs? String "file").toOption.getD "") else
+    -- for statements of the supported class the table must also be the one of the documented meaning
+    let kf := (c.note.getObjValAs? String "kf").toOption.getD "?"
+    if kf = "" && c.exp != Json.null && normGroups c.exp != obsGroups o then
+      .disagree "table differs from the table of the documented meaning" (showGroups (normGroups c.exp)) (showGroups (obsGroups o)) else
     let countProbs := match (o.obs.getObjVal? "parse").toOption.bind (fun pj => (pj.getObjVal? "nodes").toOption) with
       | some (.arr #[n]) => (match nodeOfJson n with | .ok pn => rowCountProblems pn (obsORows o) ++ wandContentProblems pn (obsORows o) | .error _ => [])
       | _ => []
